@@ -2,11 +2,11 @@
 
 use super::c09::{alpha_label, apply_prefix, buf_c09, call_label, pdu_c09, prefix, resolve_pos, PrefixOp};
 use crate::common::*;
-use crate::engine::{bx, guard, hash_of, GenPart, Property, Stats, Tier};
+use crate::engine::{bx, guard, hash_of, EnumPart, GenPart, Property, Stats, Tier};
 use dvb_gse_rust::gse_encap::{encap_frag_preview, encap_preview, ContextFrag, EncapMetadata, EncapStatus};
 use proptest::prelude::*;
 use serde::{Deserialize, Serialize};
-use serde_json::json;
+use serde_json::{json, Value};
 
 #[derive(Clone, Debug, PartialEq, Eq, Hash, Serialize, Deserialize)]
 pub enum Call {
@@ -184,12 +184,67 @@ fn check(c: &Case, st: &mut Stats) -> Result<(), String> {
     Ok(())
 }
 
+// ---- enumerated grids: (remaining, buffer) for continuations, (length, buffer) for first calls -----------
+
+const GRID: u64 = 4201; // 0..=4200
+
+/// continuation: context 5 bytes into a PDU with `r` bytes remaining, buffer `b`
+fn cont_case(r: u64, b: u64) -> Case {
+    Case { prefix: vec![], call: Call::Cont { pdu: Pdu { len: (r + 5) as u32, seed: 3 + r as u32 }, frag_id: (r % 256) as u8, crc: 0xDEAD_0000 | r as u32, pos: 5, pos_mode: 3, buf: BufSpec::Abs(b as u32) } }
+}
+
+const GRID_B: u64 = 4301; // buffers 0..=4300
+
+fn cont_grid(i: u64) -> Case {
+    cont_case(i / GRID_B, i % GRID_B)
+}
+
+fn check_cont_grid(i: u64, st: &mut Stats) -> Result<(), String> {
+    check(&cont_grid(i), st)
+}
+
+/// first call: PDU length x {6-byte, 3-byte, broadcast} x buffers 0..=16 and fit-8..=fit+8; fresh encapsulator
+fn first_grid(i: u64) -> Case {
+    let (len, rest) = (i % GRID, i / GRID);
+    let (labkind, k) = (rest % 3, rest / 3);
+    let lab = match labkind {
+        0 => Lab::Six(ALPHA6[0]),
+        1 => Lab::Three(ALPHA3[0]),
+        _ => Lab::Broadcast,
+    };
+    let buf = if k < 17 { BufSpec::Abs(k as u32) } else { BufSpec::FitPlus(k as i32 - 17 - 8) };
+    Case { prefix: vec![], call: Call::First { pdu: Pdu { len: len as u32, seed: 3 + len as u32 }, lab, ptype: 0x0600 + ((len * 7919) % (0x10000 - 0x0600)) as u16, frag_id: (len % 256) as u8, buf } }
+}
+
+fn check_first_grid(i: u64, st: &mut Stats) -> Result<(), String> {
+    check(&first_grid(i), st)
+}
+
 pub fn property() -> Property {
     Property {
         id: "C18",
         rule: "prior state + one (PDU 0..=70000, label, protocol type 0..=0xFFFF, buffer 0..=70000) or (PDU, context at any position incl. the end and beyond, buffer); oracle: encap_preview vs encap on the same encapsulator state: equal error, or equal packet kind (S/E bits actually emitted) and pkt_len == returned length — full comparison when no substitution can apply (re-use disabled, empty label memory, broadcast/explicit re-use), otherwise only when encap really wrote the full label; encap_frag_preview vs encap_frag: equal error, or equal kind, pdu_len == payload bytes on the wire == context advance, pkt_len == returned length; a panic on either side is a violation. non-trivial = protocol type < 0x0600, Err on both sides, buffer > 4097, or context at/after the PDU end",
         assumptions: &["previews take only shared references, so 'never modify anything' is enforced by their signatures"],
-        parts: vec![Box::new(GenPart {
+        parts: vec![
+        Box::new(EnumPart {
+            name: "continuation-grid",
+            rule: "encap_frag_preview vs encap_frag for every pair (remaining length 0..=4200, buffer 0..=4300): 18 M pairs, exhaustive in both tiers",
+            size: |_| GRID * GRID_B,
+            exhaustive: |_| true,
+            check: check_cont_grid,
+            describe: |_t, i| serde_json::to_value(cont_grid(i)).unwrap_or(Value::Null),
+            required_classes: &["both-ok", "both-err"],
+        }),
+        Box::new(EnumPart {
+            name: "first-call-grid",
+            rule: "encap_preview vs encap on a fresh encapsulator for PDU lengths 0..=4200 x {6-byte, 3-byte, broadcast} x buffers 0..=16 and exact-fit-8..=exact-fit+8 (exhaustive)",
+            size: |_| GRID * 3 * 34,
+            exhaustive: |_| true,
+            check: check_first_grid,
+            describe: |_t, i| serde_json::to_value(first_grid(i)).unwrap_or(Value::Null),
+            required_classes: &["both-ok", "both-err", "state-no-substitution"],
+        }),
+        Box::new(GenPart {
             name: "preview-vs-real",
             rule: "see property rule",
             cases: (2_000_000, 36_000_000),
